@@ -54,6 +54,20 @@ const (
 	matchResultOptionalNoData                    // statement has no data and is optional
 )
 
+// rank orders the outcomes from best to worst: true, optional no data, no data, false.
+func (r matchResult) rank() int {
+	switch r {
+	case matchResultTrue:
+		return 0
+	case matchResultOptionalNoData:
+		return 1
+	case matchResultNoData:
+		return 2
+	default:
+		return 3
+	}
+}
+
 // matchStatement evaluate the policy against the given ipld.Node and returns:
 // - matchResultTrue: if the selector matched and the statement evaluated to true.
 // - matchResultFalse: if the selector matched and the statement evaluated to false.
@@ -139,36 +153,38 @@ func matchStatement(cur Statement, node ipld.Node) (_ matchResult, leafMost Stat
 		}
 	case KindAnd:
 		if s, ok := cur.(connective); ok {
+			// the outcome is the worst one among the operands (false, then no data, then optional no data, then true),
+			// whatever their order
+			worst, worstLeaf := matchResultTrue, Statement(nil)
 			for _, cs := range s.statements {
 				res, leaf := matchStatement(cs, node)
-				switch res {
-				case matchResultNoData, matchResultOptionalNoData:
-					return res, leaf
-				case matchResultTrue:
-					// continue
-				case matchResultFalse:
+				if res == matchResultFalse {
 					return matchResultFalse, leaf
 				}
+				if res.rank() > worst.rank() {
+					worst, worstLeaf = res, leaf
+				}
 			}
-			return matchResultTrue, nil
+			return worst, worstLeaf
 		}
 	case KindOr:
 		if s, ok := cur.(connective); ok {
 			if len(s.statements) == 0 {
 				return matchResultTrue, nil
 			}
+			// the outcome is the best one among the operands (true, then optional no data, then no data, then false),
+			// whatever their order
+			best, bestLeaf := matchResultFalse, cur
 			for _, cs := range s.statements {
 				res, leaf := matchStatement(cs, node)
-				switch res {
-				case matchResultNoData, matchResultOptionalNoData:
-					return res, leaf
-				case matchResultTrue:
-					return matchResultTrue, leaf
-				case matchResultFalse:
-					// continue
+				if res == matchResultTrue {
+					return matchResultTrue, nil
+				}
+				if res.rank() < best.rank() {
+					best, bestLeaf = res, leaf
 				}
 			}
-			return matchResultFalse, cur
+			return best, bestLeaf
 		}
 	case KindLike:
 		if s, ok := cur.(wildcard); ok {
@@ -198,22 +214,22 @@ func matchStatement(cur Statement, node ipld.Node) (_ matchResult, leafMost Stat
 			if it == nil {
 				return matchResultFalse, cur // not a list
 			}
+			// as for "and": the worst outcome among the elements, whatever their order
+			worst, worstLeaf := matchResultTrue, Statement(nil)
 			for !it.Done() {
 				_, v, err := it.Next()
 				if err != nil {
 					panic("should never happen")
 				}
 				matchRes, leaf := matchStatement(s.statement, v)
-				switch matchRes {
-				case matchResultNoData, matchResultOptionalNoData:
-					return matchRes, leaf
-				case matchResultTrue:
-					// continue
-				case matchResultFalse:
+				if matchRes == matchResultFalse {
 					return matchResultFalse, leaf
 				}
+				if matchRes.rank() > worst.rank() {
+					worst, worstLeaf = matchRes, leaf
+				}
 			}
-			return matchResultTrue, nil
+			return worst, worstLeaf
 		}
 	case KindAny:
 		if s, ok := cur.(quantifier); ok {
@@ -228,22 +244,22 @@ func matchStatement(cur Statement, node ipld.Node) (_ matchResult, leafMost Stat
 			if it == nil {
 				return matchResultFalse, cur // not a list
 			}
+			// as for "or": the best outcome among the elements, whatever their order
+			best, bestLeaf := matchResultFalse, cur
 			for !it.Done() {
 				_, v, err := it.Next()
 				if err != nil {
 					panic("should never happen")
 				}
 				matchRes, leaf := matchStatement(s.statement, v)
-				switch matchRes {
-				case matchResultNoData, matchResultOptionalNoData:
-					return matchRes, leaf
-				case matchResultTrue:
+				if matchRes == matchResultTrue {
 					return matchResultTrue, nil
-				case matchResultFalse:
-					// continue
+				}
+				if matchRes.rank() < best.rank() {
+					best, bestLeaf = matchRes, leaf
 				}
 			}
-			return matchResultFalse, cur
+			return best, bestLeaf
 		}
 	}
 	panic(fmt.Errorf("unimplemented statement kind: %s", cur.Kind()))
